@@ -278,19 +278,45 @@ Proof.
   rewrite gen_DistNegBinomial_draw_loop1_eq. reflexivity.
 Qed.
 
-Lemma gen_DistPoisson_draw_loop1_eq : forall us fuel rate expl s x, (length us < fuel)%nat ->
-  gen_DistPoisson_draw_loop1 N fuel rate expl s x us = poisson_loop N expl s x us.
+(* DistPoisson: the product algorithm is the helper method _draw_product; draw() uses it once for a rate
+   up to 500 and sums n = floor(rate / 500) + 1 of them, with exp(-rate / n), for a larger rate *)
+Lemma gen_DistPoisson__draw_product_loop1_eq : forall us fuel expl s x, (length us < fuel)%nat ->
+  gen_DistPoisson__draw_product_loop1 N fuel expl s x us = poisson_loop N expl s x us.
 Proof.
-  induction us as [|u r IH]; intros fuel rate expl s x H; (destruct fuel; [simpl in H; lia|]);
-    cbn [gen_DistPoisson_draw_loop1 poisson_loop]; unm; cbn [next]; nrm; [reflexivity|].
+  induction us as [|u r IH]; intros fuel expl s x H; (destruct fuel; [simpl in H; lia|]);
+    cbn [gen_DistPoisson__draw_product_loop1 poisson_loop]; unm; cbn [next]; nrm; [reflexivity|].
   destruct (leb N (mul N s u) expl); [reflexivity|]. apply IH. simpl in H. lia.
+Qed.
+
+Lemma gen_DistPoisson__draw_product_eq : forall expl us,
+  gen_DistPoisson__draw_product N expl us = poisson_loop N expl (one N) (-1)%Z us.
+Proof.
+  intros. unfold gen_DistPoisson__draw_product, with_fuel.
+  rewrite gen_DistPoisson__draw_product_loop1_eq by lia. reflexivity.
+Qed.
+
+Lemma gen_DistPoisson_draw_loop1_eq : forall cnt rate expl n e x us,
+  gen_DistPoisson_draw_loop1 N cnt rate expl n e x us = poisson_sum N cnt e x us.
+Proof.
+  induction cnt as [|c IH]; intros; [reflexivity|].
+  cbn [gen_DistPoisson_draw_loop1 poisson_sum]. unfold bind.
+  rewrite gen_DistPoisson__draw_product_eq.
+  destruct (poisson_loop N e (one N) (-1)%Z us) as [[g|er] r]; [apply IH|reflexivity].
 Qed.
 
 Theorem gen_DistPoisson_draw_eq : forall rate expl cache us,
   draw N false (DPoisson rate expl) cache us = iv N (gen_DistPoisson_draw N rate expl) cache us.
 Proof.
-  intros. cbn [draw]. unfold gen_DistPoisson_draw, iv, bind, with_fuel.
-  rewrite gen_DistPoisson_draw_loop1_eq by lia. reflexivity.
+  intros. cbn [draw]. unfold gen_DistPoisson_draw, draw_poisson, c500, iv. cbn [orb].
+  destruct (leb N rate (ofZ N 500)).
+  - unfold bind, ret. rewrite gen_DistPoisson__draw_product_eq.
+    destruct (poisson_loop N expl (one N) (-1)%Z us) as [[g|er] r]; reflexivity.
+  - unfold bind, lift.
+    destruct (div N rate (ofZ N 500)) as [q|]; [|reflexivity].
+    destruct (nfloor N q) as [fl|]; [|reflexivity].
+    destruct (div N (neg N rate) (ofZ N (fl + 1))) as [q2|]; [|reflexivity].
+    destruct (nexp N q2) as [e|]; [|reflexivity].
+    rewrite gen_DistPoisson_draw_loop1_eq. reflexivity.
 Qed.
 
 (* DistErlang: the source tests k < 10, the model whether the inner gamma exists *)
